@@ -71,9 +71,10 @@ impl ControlMessage {
         let mut avp_reader = reader.subreader(payload_length);
         let avp_and_err = AVP::try_read_greedy(&mut avp_reader);
 
-        if let Some(first) = avp_and_err.first() {
+        // An undecodable first AVP is reported through the error list below, so that its own error is not masked
+        if let Some(Ok(first)) = avp_and_err.first() {
             match first {
-                Ok(AVP::MessageType(_)) => (),
+                AVP::MessageType(_) => (),
                 _ => return Err(vec![DecodeError::ControlMessageTypeNotFirst]),
             }
         }
